@@ -86,27 +86,28 @@ func (s *Sim) oracleC03(op Op) {
 			s.violate("C03", "negative", "app", "application %s has a negative total: alloc %s ph %s pending %s", id, a.Alloc, a.PhAlloc, a.Pending)
 		}
 	}
-	// queues: leaf = sum of applications, parent = sum of children
+	// queues: leaf = sum of applications, parent = sum of children (a queue whose type was flipped by a reload
+	// while in use holds both for a while: it answers for both)
 	for _, path := range sortedKeys(p.Queues) {
 		q := p.Queues[path]
 		sumA, sumP := Res{}, Res{}
-		if q.Leaf {
-			for _, id := range q.Apps {
-				if a := p.Apps[id]; a != nil {
-					sumA.AddTo(a.Alloc)
-					sumA.AddTo(a.PhAlloc)
-					sumP.AddTo(a.Pending)
-				} else {
-					s.violate("C03", "queue-app-not-live", "", "queue %s lists application %s which the partition does not list as live", path, id)
-				}
+		for _, id := range q.Apps {
+			if a := p.Apps[id]; a != nil {
+				sumA.AddTo(a.Alloc)
+				sumA.AddTo(a.PhAlloc)
+				sumP.AddTo(a.Pending)
+			} else {
+				s.violate("C03", "queue-app-not-live", "", "queue %s lists application %s which the partition does not list as live", path, id)
 			}
-		} else {
-			for _, c := range q.Children {
-				if cq := p.Queues[c]; cq != nil {
-					sumA.AddTo(cq.Alloc)
-					sumP.AddTo(cq.Pending)
-				}
+		}
+		for _, c := range q.Children {
+			if cq := p.Queues[c]; cq != nil {
+				sumA.AddTo(cq.Alloc)
+				sumP.AddTo(cq.Pending)
 			}
+		}
+		if len(q.Apps) > 0 && len(q.Children) > 0 {
+			s.probe("queue_with_apps_and_children")
 		}
 		if !q.Alloc.Eq(sumA) {
 			what := "children"
